@@ -157,7 +157,7 @@ def run(tier, seed, replay=None):
         # ------------------------------------------------------------------ cases
         cases = []
         if replay is None:
-            cases += g.getopt_cases(tier) + g.env_split_cases(tier) + g.find_cases(tier) + g.shell_cases(tier)
+            cases += g.odd_cases(tier) + g.getopt_cases(tier) + g.env_split_cases(tier) + g.find_cases(tier) + g.shell_cases(tier)
             cases += g.docker_cases(tier, "docker") + g.docker_cases("quick", "podman")[:400] + g.kubectl_cases(tier) + g.fd_cases(tier)
             cases += g.other_launcher_cases(tier)
         elif replay.get("case"):
